@@ -80,6 +80,9 @@ class Cog20(ExactSolver):
         bigGamma = self.Gamma
         k = self.geometry - 1.
         c1 = 1 - self.a * t
+        if c1 <= 0:
+            # No valid solution at or after the collapse time t = 1/a
+            c1 = np.nan
         shock_location = self.u0 * (self.gamma - 1) / (4 * self.a)
         shock_location = shock_location * t * (1 - 2 * self.a * t) / c1
 
